@@ -272,6 +272,11 @@ def write_databases(case, base, rng, extras=True):
             elif x < 0.4:
                 argv += rng.choice([["-fmystery"], ["--weird=1", "-Wfoo"], ["-qsomething", "--opt=3"]])
                 exp["unknown-flags"] += 1
+            elif x < 0.5:
+                comp = rng.choice(["zcc-9", "/opt/x/bin/qcc"])
+                argv += rng.choice([["--mystery-flag"], ["--qopt-one", "--qopt-two"]])
+                exp["unknown-compiler"] += 1
+                exp["unknown-flags"] += 1
         argv = [comp] + argv + ["-c", path]
         by.setdefault(tu["platform"], []).append({"file": path, "directory": os.path.dirname(path), "arguments": argv})
         if extras and rng.random() < 0.25:
